@@ -63,6 +63,9 @@ type probe struct {
 	Port    int    `json:"port"`
 	Payload []byte `json:"payload"`
 	First   int    `json:"first"` // length of first segment
+	// Silent: the client connects and sends nothing for a while (it waits for a greeting); whether a service has
+	// been invoked by then is recorded before the payload goes out
+	Silent bool `json:"silent,omitempty"`
 }
 
 type scenario struct {
@@ -133,6 +136,9 @@ func mkScenario(seed int64, idx int, socket bool) scenario {
 		}
 		if p.Net == "udp" {
 			p.First = len(p.Payload)
+		}
+		if p.Net == "tcp" && !socket && r.Chance(1, 4) {
+			p.Silent = true
 		}
 		sc.Probes = append(sc.Probes, p)
 	}
@@ -251,6 +257,7 @@ type probeObs struct {
 	Closed bool     `json:"closed"`
 	Err    string   `json:"err,omitempty"`
 	Burst  bool     `json:"burst,omitempty"` // sent together with the scenario's other datagrams, not on its own
+	Early  bool     `json:"invoked_before_first_byte,omitempty"`
 }
 type callObs struct {
 	Stub string `json:"stub"`
@@ -451,6 +458,20 @@ func runMemProbe(srv *lab.Server, pr probe, k, i int) probeObs {
 	}
 	cc := srv.L.DialTCP(lab.TCPAddr(pr.IP, pr.Port), lab.TCPAddr(rip, 3000+i))
 	cl := lab.NewClient(cc)
+	if pr.Silent {
+		me := fmt.Sprintf("%s:%d", rip, 3000+i)
+		deadline := time.Now().Add(150 * time.Millisecond)
+		for !ob.Early && time.Now().Before(deadline) {
+			for _, c := range lab.Stubs.Snapshot() {
+				if c.Remote == me {
+					ob.Early = true
+				}
+			}
+			if !ob.Early {
+				time.Sleep(time.Millisecond)
+			}
+		}
+	}
 	if err := cl.Send(pr.Payload[:pr.First], 2*time.Second); err != nil {
 		ob.Err = err.Error()
 	} else if rest := pr.Payload[pr.First:]; len(rest) > 0 {
@@ -577,6 +598,18 @@ func (prop) Judge(b core.Batch, recs []core.Rec, exits []core.Exit) []core.Resul
 			default:
 				if !adm[""] && !zero {
 					rule, what = "no-service-invoked", fmt.Sprintf("no service was invoked; the statement requires one of %v", keys(adm))
+				}
+			}
+			if rule == "" && pr.Silent && !ob.Early {
+				// a client that has not sent anything yet: when the first service of the matching entry has no
+				// payload detector, nothing needs to be inspected and that service is the connection's
+				for _, e := range effective(sc.Ports) {
+					if e.Net == pr.Net && e.Port == pr.Port && (e.IP == "" || e.IP == pr.IP) {
+						if d := stubByName(e.Services[0]); d != nil && d.Prefix == "-" && len(e.Services) > 1 {
+							rule, what = "silent-client-not-handed-to-detectorless-first-service", fmt.Sprintf("the entry's first service %s has no payload detector, but a client that had not sent anything yet was not handed to it within 150 ms (services %v)", e.Services[0], e.Services)
+						}
+						break
+					}
 				}
 			}
 			if rule != "" {
